@@ -179,6 +179,14 @@ def parse_cbmc(text):
                     ent["calls"] = tail[-25:]
                 r["results"].append(ent)
         if "cProverStatus" in m: r["status"] = m["cProverStatus"]
+    # path-based symex (--paths) reports every property once per explored path: merge, FAILURE wins
+    merged = {}
+    for ent in r["results"]:
+        k = ent.get("property")
+        if k not in merged: merged[k] = ent
+        elif ent["status"] == "FAILURE" and merged[k]["status"] != "FAILURE": merged[k] = ent
+        elif merged[k]["status"] not in ("FAILURE", "SUCCESS") and ent["status"] == "SUCCESS": merged[k] = ent
+    r["results"] = list(merged.values())
     return r
 
 def write_replay_header(path, vals):
